@@ -902,15 +902,17 @@ Varable failures: {var_failed}
         see PseudoNetCDFFile.stack
         """
         from collections.abc import Iterable
-        outf = PseudoNetCDFFile.stack(self, other, stackdim)
+        # the files once, as a list: a generator would be spent by the
+        # generic stack before the level edges are joined
+        if hasattr(other, 'variables') and hasattr(other, 'dimensions'):
+            # one file (a file read from netCDF defines __iter__)
+            others = [other]
+        elif isinstance(other, Iterable):
+            others = list(other)
+        else:
+            others = [other]
+        outf = PseudoNetCDFFile.stack(self, others, stackdim)
         if stackdim == 'LAY' and hasattr(self, 'VGLVLS'):
-            if hasattr(other, 'variables') and hasattr(other, 'dimensions'):
-                # one file (a file read from netCDF defines __iter__)
-                others = [other]
-            elif isinstance(other, Iterable):
-                others = list(other)
-            else:
-                others = [other]
             # level edges of the stacked layers: the first file's edges
             # followed by the upper edges of each additional file
             vglvls = [np.asarray(self.VGLVLS)]
